@@ -503,6 +503,64 @@ func c10Handles(g *rand.Rand, res *ev.Result, trunk string, tag string) {
 		}
 		res.Seen("handles|closed-conn-isolation|" + trunk)
 	}
+	// (d) a stale handle closed once more after the id was opened again must not take the new connection away
+	for v := 0; v < 3; v++ {
+		id := uint32(4000 + v)
+		ca, _ := ma.Open(multiplex.ConnID(id))
+		h1, _ := mb.Open(multiplex.ConnID(id))
+		h1.Close()
+		h2, _ := mb.Open(multiplex.ConnID(id))
+		for k := 0; k <= v; k++ {
+			h1.Close() // closing repeatedly is legal
+		}
+		if err := sendN(ca, id, 0, 4); err != nil {
+			viol("write-error", err.Error())
+			return
+		}
+		if r := recvN(h2, id, 0, 4, 5*time.Second); r != "" {
+			viol("stale-close-lost-stream", fmt.Sprintf("connection id %d was closed, opened again, and the old handle closed %d more time(s): the new connection lost its stream: %s", id, v+1, r))
+			return
+		}
+		res.Seen(fmt.Sprintf("handles|stale-close%d|%s", v, trunk))
+	}
+	// (e) a receiver that reads late but stays within its configured queue length loses nothing, whatever
+	// that length is
+	for _, ql := range []int{1, 3, 300, 1000} {
+		a2, b2, err := trunkPair(trunk)
+		if err != nil {
+			return
+		}
+		m1 := multiplex.Multiplex(a2, multiplex.WithReadQueueLength(ql))
+		m2 := multiplex.Multiplex(b2, multiplex.WithReadQueueLength(ql))
+		ca, _ := m1.Open(5000)
+		cb, _ := m2.Open(5000)
+		n := ql - ql/10 // stay clear of the limit itself
+		if n < 1 {
+			n = 1
+		}
+		done := make(chan error, 1)
+		go func() { done <- sendN(ca, 5000, 0, n) }()
+		var werr error
+		select {
+		case werr = <-done:
+		case <-time.After(20 * time.Second):
+			werr = fmt.Errorf("writer blocked")
+		}
+		// only now does the receiver start reading
+		r := ""
+		if werr == nil {
+			// let the frames reach the receiving multiplexer's queue before reading starts
+			time.Sleep(20 * time.Millisecond)
+			r = recvN(cb, 5000, 0, n, 10*time.Second)
+		}
+		m1.Close()
+		m2.Close()
+		if werr != nil || r != "" {
+			viol("late-reader-within-queue-length", fmt.Sprintf("read queue length %d, %d frames written before the receiver started to read: write error %v; %s", ql, n, werr, r))
+			return
+		}
+		res.Seen(fmt.Sprintf("handles|late-reader-q%d|%s", ql, trunk))
+	}
 }
 
 func runC10(c *ev.ChildEnv, res *ev.Result) {
